@@ -146,12 +146,18 @@ def classify(case, model: str, lib_o) -> str | None:
     if lib_o[0] == "raise" and not is_lib_exc(lib_o[1]):
         return f"foreign-exception:{type(lib_o[1]).__name__}@{tb_origin(lib_o[1])}"
     lib_ok = lib_o[0] == "ok"
-    if lib_ok and model != "OK":
-        return f"accepts-where-core-rejects:{model}"
-    if not lib_ok and model == "OK":
+    if lib_ok == (model == "OK"):
+        return None
+    # a divergence explained by an input feature with a known cause is tagged by that cause, whichever way the
+    # script turns it (a failed signature check becomes an acceptance behind OP_NOT)
+    from ..ref.core import F
+    if not case.flags & (F["DERSIG"] | F["LOW_S"] | F["STRICTENC"]):
         cause = _cause_of_refusal(case)
-        return f"rejects-where-core-accepts:{cause or _norm(str(lib_o[1]))}"
-    return None
+        if cause:
+            return f"diverges:{cause}"
+    if lib_ok:
+        return f"accepts-where-core-rejects:{model}"
+    return f"rejects-where-core-accepts:{_norm(str(lib_o[1]))}"
 
 
 def _cause_of_refusal(case) -> str | None:
